@@ -299,14 +299,17 @@ theorem layout_rx_v0 (tn fn : Nat) (rssi toa256 : Int) (bits pad : List Nat) (h1
   simp only [toBytes, envTo, e0, e1, e2, e3, e4, e5, layoutRxV0]
   simp
 
-/-- Rx PDU version 1; a NOPE indication (`nope = 1`) carries no burst whatever the dict holds -/
-theorem layout_rx_v1 (tn fn : Nat) (rssi toa256 : Int) (nope mod tsc : Nat) (ci : Int) (bits : List Nat)
+/-- Rx PDU version 1, given what the burst field encodes to -/
+theorem layout_rx_v1_gen (tn fn : Nat) (rssi toa256 : Int) (nope mod tsc : Nat) (ci : Int) (burst : Vals)
+    (out : List Nat)
     (h1 : tn < 8) (h2 : fn < 4294967296) (h3 : -255 ≤ rssi ∧ rssi ≤ 0) (h4 : -32768 ≤ toa256 ∧ toa256 ≤ 32767)
-    (h5 : mod < 16) (h6 : tsc < 8) (h7 : -32768 ≤ ci ∧ ci ≤ 32767) (hn : nope < 2) :
-    toBytes pduV1Rx (valsRxV1 tn fn rssi toa256 nope mod tsc ci [("soft-bits", .bytes bits)])
-      = .ok (layoutRxV1 tn fn rssi toa256 nope mod tsc ci (if nope = 0 then bits else [])) := by
-  generalize hv : valsRxV1 tn fn rssi toa256 nope mod tsc ci [("soft-bits", .bytes bits)] = v
-  have g : ∀ k x, Vals.get (valsRxV1 tn fn rssi toa256 nope mod tsc ci [("soft-bits", .bytes bits)]) k = x →
+    (h5 : mod < 16) (h6 : tsc < 8) (h7 : -32768 ≤ ci ∧ ci ≤ 32767) (hn : nope < 2)
+    (e6 : fieldTo (.buf "soft-bits" (.flagFalse "nope") (.table "mod" burstTable))
+      (valsRxV1 tn fn rssi toa256 nope mod tsc ci burst) = .ok out) :
+    toBytes pduV1Rx (valsRxV1 tn fn rssi toa256 nope mod tsc ci burst)
+      = .ok (layoutRxV1 tn fn rssi toa256 nope mod tsc ci out) := by
+  generalize hv : valsRxV1 tn fn rssi toa256 nope mod tsc ci burst = v at e6
+  have g : ∀ k x, Vals.get (valsRxV1 tn fn rssi toa256 nope mod tsc ci burst) k = x →
       Vals.get v k = x := by intro k x h; rw [← hv]; exact h
   have e0 := hdr1_enc 1 1 tn v rfl (by omega) h1 (g _ _ (by simp [valsRxV1, Vals.get]))
   have e1 := u32_enc "fn" v fn (g _ _ (by simp [valsRxV1, Vals.get])) h2
@@ -315,23 +318,241 @@ theorem layout_rx_v1 (tn fn : Nat) (rssi toa256 : Int) (nope mod tsc : Nat) (ci 
   have e4 := mts_enc nope mod tsc v hn h5 h6 (g _ _ (by simp [valsRxV1, Vals.get]))
     (g _ _ (by simp [valsRxV1, Vals.get])) (g _ _ (by simp [valsRxV1, Vals.get]))
   have e5 := i16_enc "cir" v ci (g _ _ (by simp [valsRxV1, Vals.get])) h7.1 h7.2
-  have gn : Vals.get v "nope" = .ok (.int nope) := g _ _ (by simp [valsRxV1, Vals.get])
-  have e6 : fieldTo (.buf "soft-bits" (.flagFalse "nope") (.table "mod" burstTable)) v
-      = .ok (if nope = 0 then bits else []) := by
-    by_cases h0 : nope = 0
-    · subst h0
-      rw [if_pos rfl]
-      exact fieldTo_buf_eval "soft-bits" _ v bits (g _ _ (by simp [valsRxV1, Vals.get])) rfl _
-        (by simp [getPres, gn, Val.truthy])
-    · rw [if_neg h0]
-      exact fieldTo_absent_eval _ v (by simp [FDef.pres, getPres, gn, Val.truthy, h0]) (by intros; simp)
   rw [v01_shape.2.2.2]
   simp only [toBytes, envTo, e0, e1, e2, e3, e4, e5, e6, layoutRxV1]
   simp
+
+/-- Rx PDU version 1; a NOPE indication (`nope = 1`) carries no burst whatever the dict holds -/
+theorem layout_rx_v1 (tn fn : Nat) (rssi toa256 : Int) (nope mod tsc : Nat) (ci : Int) (bits : List Nat)
+    (h1 : tn < 8) (h2 : fn < 4294967296) (h3 : -255 ≤ rssi ∧ rssi ≤ 0) (h4 : -32768 ≤ toa256 ∧ toa256 ≤ 32767)
+    (h5 : mod < 16) (h6 : tsc < 8) (h7 : -32768 ≤ ci ∧ ci ≤ 32767) (hn : nope < 2) :
+    toBytes pduV1Rx (valsRxV1 tn fn rssi toa256 nope mod tsc ci [("soft-bits", .bytes bits)])
+      = .ok (layoutRxV1 tn fn rssi toa256 nope mod tsc ci (if nope = 0 then bits else [])) := by
+  apply layout_rx_v1_gen _ _ _ _ _ _ _ _ _ _ h1 h2 h3 h4 h5 h6 h7 hn
+  have gn : Vals.get (valsRxV1 tn fn rssi toa256 nope mod tsc ci [("soft-bits", .bytes bits)]) "nope"
+      = .ok (.int nope) := by simp [valsRxV1, Vals.get]
+  by_cases h0 : nope = 0
+  · subst h0
+    rw [if_pos rfl]
+    exact fieldTo_buf_eval "soft-bits" _ _ bits (by simp [valsRxV1, Vals.get]) rfl _
+      (by simp [getPres, gn, Val.truthy])
+  · rw [if_neg h0]
+    exact fieldTo_absent_eval _ _ (by simp [FDef.pres, getPres, gn, Val.truthy, h0]) (by intros; simp)
+
+/-- … and the NOPE indication proper (no burst entry in the dict) -/
+theorem layout_rx_v1_nope (tn fn : Nat) (rssi toa256 : Int) (mod tsc : Nat) (ci : Int)
+    (h1 : tn < 8) (h2 : fn < 4294967296) (h3 : -255 ≤ rssi ∧ rssi ≤ 0) (h4 : -32768 ≤ toa256 ∧ toa256 ≤ 32767)
+    (h5 : mod < 16) (h6 : tsc < 8) (h7 : -32768 ≤ ci ∧ ci ≤ 32767) :
+    toBytes pduV1Rx (valsRxV1 tn fn rssi toa256 1 mod tsc ci [])
+      = .ok (layoutRxV1 tn fn rssi toa256 1 mod tsc ci []) := by
+  apply layout_rx_v1_gen _ _ _ _ _ _ _ _ _ _ h1 h2 h3 h4 h5 h6 h7 (by omega)
+  have gn : Vals.get (valsRxV1 tn fn rssi toa256 1 mod tsc ci []) "nope" = .ok (.int (1 : Nat)) := by
+    simp [valsRxV1, Vals.get]
+  exact fieldTo_absent_eval _ _ (by simp [FDef.pres, getPres, gn, Val.truthy]) (by intros; simp)
 
 /-- reserved bits are sent as zero: bit 3 of the header octet and nothing above the 8 bits of the MTS octet -/
 theorem reserved_sent_zero (ver tn nope mod tsc : Nat) (h0 : ver < 16) (h1 : tn < 8) (h2 : nope < 2) (h3 : mod < 16)
     (h4 : tsc < 8) : hdrOctet ver tn / 8 % 2 = 0 ∧ hdrOctet ver tn < 256 ∧ mtsOctet nope mod tsc < 256 := by
   simp only [hdrOctet, mtsOctet]; omega
+
+/-! ## every v0/v1 datagram of the message codec is accepted with identical field values -/
+
+set_option maxRecDepth 8000 in
+theorem inrange_tx (ver tn fn pwr : Nat) (bits : List Nat) (h1 : tn < 8) (h2 : fn < 4294967296) (h3 : pwr < 256)
+    (hb : isBytes bits = true) :
+    (ver = 0 → declLen pduV0Tx (valsTx ver tn fn pwr bits) 0 = some (6 + bits.length))
+    ∧ (ver = 1 → declLen pduV1Tx (valsTx ver tn fn pwr bits) 0 = some (6 + bits.length)) := by
+  have c1 : (tn : Int) < 8 := by omega
+  have c2 : (fn : Int) < 4294967296 := by omega
+  have c3 : (pwr : Int) < 256 := by omega
+  refine ⟨fun hv => ?_, fun hv => ?_⟩ <;> subst hv
+  · rw [v01_shape.1]
+    simp [declLen, valsTx, inRangeFields, inRangeField, getPres, FDef.pres, FDef.nStored, FDef.storedNames, hdr1,
+      bitsDerive, bitsOrdered, bitsLen, bitsOffsets, inRangeBits, Vals.keys, lenOK, getLen, fitsInt, hb, c1, c2, c3,
+      fdiv_one]
+    omega
+  · rw [v01_shape.2.1]
+    simp [declLen, valsTx, inRangeFields, inRangeField, getPres, FDef.pres, FDef.nStored, FDef.storedNames, hdr1,
+      bitsDerive, bitsOrdered, bitsLen, bitsOffsets, inRangeBits, Vals.keys, lenOK, getLen, fitsInt, hb, c1, c2, c3,
+      fdiv_one]
+    omega
+
+set_option maxRecDepth 8000 in
+theorem inrange_rx_v0 (tn fn : Nat) (rssi toa256 : Int) (bits pad : List Nat) (h1 : tn < 8) (h2 : fn < 4294967296)
+    (h3 : -255 ≤ rssi ∧ rssi ≤ 0) (h4 : -32768 ≤ toa256 ∧ toa256 ≤ 32767)
+    (hb : isBytes bits = true) (hpb : isBytes pad = true)
+    (hl : (bits.length = 148 ∧ pad.length ≤ 2) ∨ bits.length = 444) :
+    declLen pduV0Rx (valsRxV0 tn fn rssi toa256 bits pad) 0 = some (8 + bits.length + pad.length) := by
+  have c1 : (tn : Int) < 8 := by omega
+  have c2 : (fn : Int) < 4294967296 := by omega
+  have k4 : -65536 ≤ 2 * toa256 ∧ 2 * toa256 < 65536 := by omega
+  have k3 : rssi ≤ 0 ∧ -rssi < 256 := by omega
+  have hth : (if bits.length + pad.length > 150 then 444 else 148) = bits.length := by
+    rcases hl with ⟨h, hp⟩ | h
+    · rw [if_neg (by omega), h]
+    · rw [if_pos (by omega), h]
+  rw [v01_shape.2.2.1]
+  simp [declLen, valsRxV0, inRangeFields, inRangeField, getPres, FDef.pres, FDef.nStored, FDef.storedNames, hdr1,
+    bitsDerive, bitsOrdered, bitsLen, bitsOffsets, inRangeBits, Vals.keys, lenOK, getLen, fitsInt, hb, hpb, c1, c2, k3, k4,
+    fdiv_neg_one, hth]
+  omega
+
+set_option maxRecDepth 8000 in
+theorem inrange_rx_v1 (tn fn : Nat) (rssi toa256 : Int) (mod tsc : Nat) (ci : Int) (bits : List Nat)
+    (h1 : tn < 8) (h2 : fn < 4294967296) (h3 : -255 ≤ rssi ∧ rssi ≤ 0) (h4 : -32768 ≤ toa256 ∧ toa256 ≤ 32767)
+    (h5 : mod < 16) (h6 : tsc < 8) (h7 : -32768 ≤ ci ∧ ci ≤ 32767) (hb : isBytes bits = true)
+    (hl : burstLen mod = some bits.length) :
+    declLen pduV1Rx (valsRxV1 tn fn rssi toa256 0 mod tsc ci [("soft-bits", .bytes bits)]) 0
+      = some (11 + bits.length) := by
+  have t := tableGet_of_spec mod bits.length h5 hl
+  have c1 : (tn : Int) < 8 := by omega
+  have c2 : (fn : Int) < 4294967296 := by omega
+  have c5 : (mod : Int) < 16 := by omega
+  have c6 : (tsc : Int) < 8 := by omega
+  have k7 : -65536 ≤ 2 * ci ∧ 2 * ci < 65536 := by omega
+  have k4 : -65536 ≤ 2 * toa256 ∧ 2 * toa256 < 65536 := by omega
+  have k3 : rssi ≤ 0 ∧ -rssi < 256 := by omega
+  rw [v01_shape.2.2.2]
+  simp [declLen, valsRxV1, inRangeFields, inRangeField, getPres, FDef.pres, FDef.nStored, FDef.storedNames, hdr1, mtsSet,
+    bitsDerive, bitsOrdered, bitsLen, bitsOffsets, inRangeBits, Vals.keys, lenOK, getLen, fitsInt, hb, Vals.get,
+    Val.truthy, t, fdiv_neg_one, c1, c2, c5, c6, k7, k4, k3]
+  omega
+
+set_option maxRecDepth 8000 in
+theorem inrange_rx_v1_nope (tn fn : Nat) (rssi toa256 : Int) (mod tsc : Nat) (ci : Int)
+    (h1 : tn < 8) (h2 : fn < 4294967296) (h3 : -255 ≤ rssi ∧ rssi ≤ 0) (h4 : -32768 ≤ toa256 ∧ toa256 ≤ 32767)
+    (h5 : mod < 16) (h6 : tsc < 8) (h7 : -32768 ≤ ci ∧ ci ≤ 32767) :
+    declLen pduV1Rx (valsRxV1 tn fn rssi toa256 1 mod tsc ci []) 0 = some 11 := by
+  have c1 : (tn : Int) < 8 := by omega
+  have c2 : (fn : Int) < 4294967296 := by omega
+  have c5 : (mod : Int) < 16 := by omega
+  have c6 : (tsc : Int) < 8 := by omega
+  have k7 : -65536 ≤ 2 * ci ∧ 2 * ci < 65536 := by omega
+  have k4 : -65536 ≤ 2 * toa256 ∧ 2 * toa256 < 65536 := by omega
+  have k3 : rssi ≤ 0 ∧ -rssi < 256 := by omega
+  rw [v01_shape.2.2.2]
+  simp [declLen, valsRxV1, inRangeFields, inRangeField, getPres, FDef.pres, FDef.nStored, FDef.storedNames, hdr1, mtsSet,
+    bitsDerive, bitsOrdered, bitsLen, bitsOffsets, inRangeBits, Vals.keys, lenOK, getLen, fitsInt, Vals.get,
+    Val.truthy, fdiv_neg_one, c1, c2, c5, c6, k7, k4, k3]
+
+/-- helper: an in-range value whose encoding is known decodes from that encoding -/
+theorem accepted_of (d : EnvDef) (v : Vals) (b : List Nat) (L : Nat) (hw : WF d) (hr : declLen d v 0 = some L)
+    (he : toBytes d v = .ok b) : fromBytes d b = .ok (v, b.length) := by
+  obtain ⟨b', h1, _, h3⟩ := C16.dec_enc d v hw (by unfold InRange; rw [hr]; rfl)
+  rw [he] at h1; cases h1; exact h3
+
+/-- Tx datagrams (`TxMsg.gen_msg()`, versions 0 and 1, any burst) are accepted with identical field values. -/
+theorem msgcodec_accepted_tx (ver tn fn pwr : Nat) (bits : List Nat) (h1 : tn < 8) (h2 : fn < 4294967296)
+    (h3 : pwr < 256) (hb : isBytes bits = true) :
+    (ver = 0 → fromBytes pduV0Tx (layoutTx ver tn fn pwr bits) = .ok (valsTx ver tn fn pwr bits, 6 + bits.length))
+    ∧ (ver = 1 → fromBytes pduV1Tx (layoutTx ver tn fn pwr bits) = .ok (valsTx ver tn fn pwr bits, 6 + bits.length)) := by
+  have hlen : (layoutTx ver tn fn pwr bits).length = 6 + bits.length := by simp [layoutTx, be32]; omega
+  refine ⟨fun hv => ?_, fun hv => ?_⟩
+  · have := accepted_of pduV0Tx _ _ _ pdu_wf.2.1 ((inrange_tx ver tn fn pwr bits h1 h2 h3 hb).1 hv)
+      ((layout_tx ver tn fn pwr bits h1 h2 h3).1 hv)
+    rwa [hlen] at this
+  · have := accepted_of pduV1Tx _ _ _ pdu_wf.2.2.2.1 ((inrange_tx ver tn fn pwr bits h1 h2 h3 hb).2 hv)
+      ((layout_tx ver tn fn pwr bits h1 h2 h3).2 hv)
+    rwa [hlen] at this
+
+/-- Rx v0 datagrams (`RxMsg.gen_msg(legacy)`): GMSK (148) and EDGE (444) bursts, with or without the two
+legacy padding octets, are accepted with identical field values (needs the F3 fix). -/
+theorem msgcodec_accepted_rx_v0 (tn fn : Nat) (rssi toa256 : Int) (bits pad : List Nat) (h1 : tn < 8)
+    (h2 : fn < 4294967296) (h3 : -255 ≤ rssi ∧ rssi ≤ 0) (h4 : -32768 ≤ toa256 ∧ toa256 ≤ 32767)
+    (hb : isBytes bits = true) (hl : bits.length = 148 ∨ bits.length = 444) (hp : pad = [] ∨ pad = [0, 0]) :
+    fromBytes pduV0Rx (layoutRxV0 tn fn rssi toa256 bits pad)
+      = .ok (valsRxV0 tn fn rssi toa256 bits pad, 8 + bits.length + pad.length) := by
+  have hpb : isBytes pad = true ∧ pad.length ≤ 2 := by rcases hp with rfl | rfl <;> exact ⟨by decide, by decide⟩
+  have hlen : (layoutRxV0 tn fn rssi toa256 bits pad).length = 8 + bits.length + pad.length := by
+    simp [layoutRxV0, be32, be16s]; omega
+  have := accepted_of pduV0Rx _ _ _ pdu_wf.1
+    (inrange_rx_v0 tn fn rssi toa256 bits pad h1 h2 h3 h4 hb hpb.1 (by rcases hl with h | h; exact .inl ⟨h, hpb.2⟩; exact .inr h))
+    (layout_rx_v0 tn fn rssi toa256 bits pad h1 h2 h3 h4)
+  rwa [hlen] at this
+
+/-- Rx v1 datagrams whose modulation nibble is a documented code, and NOPE indications, are accepted with
+identical field values. -/
+theorem msgcodec_accepted_rx_v1 (tn fn : Nat) (rssi toa256 : Int) (mod tsc : Nat) (ci : Int) (bits : List Nat)
+    (h1 : tn < 8) (h2 : fn < 4294967296) (h3 : -255 ≤ rssi ∧ rssi ≤ 0) (h4 : -32768 ≤ toa256 ∧ toa256 ≤ 32767)
+    (h5 : mod < 16) (h6 : tsc < 8) (h7 : -32768 ≤ ci ∧ ci ≤ 32767) (hb : isBytes bits = true) :
+    (burstLen mod = some bits.length →
+      fromBytes pduV1Rx (layoutRxV1 tn fn rssi toa256 0 mod tsc ci bits)
+        = .ok (valsRxV1 tn fn rssi toa256 0 mod tsc ci [("soft-bits", .bytes bits)], 11 + bits.length))
+    ∧ fromBytes pduV1Rx (layoutRxV1 tn fn rssi toa256 1 mod tsc ci [])
+        = .ok (valsRxV1 tn fn rssi toa256 1 mod tsc ci [], 11) := by
+  refine ⟨fun hl => ?_, ?_⟩
+  · have hlen : (layoutRxV1 tn fn rssi toa256 0 mod tsc ci bits).length = 11 + bits.length := by
+      simp [layoutRxV1, be32, be16s]; omega
+    have hlay := layout_rx_v1 tn fn rssi toa256 0 mod tsc ci bits h1 h2 h3 h4 h5 h6 h7 (by omega)
+    rw [if_pos rfl] at hlay
+    have := accepted_of pduV1Rx _ _ _ pdu_wf.2.2.1
+      (inrange_rx_v1 tn fn rssi toa256 mod tsc ci bits h1 h2 h3 h4 h5 h6 h7 hb hl) hlay
+    rwa [hlen] at this
+  · have hlen : (layoutRxV1 tn fn rssi toa256 1 mod tsc ci []).length = 11 := by
+      simp [layoutRxV1, be32, be16s]
+    have hlay := layout_rx_v1_nope tn fn rssi toa256 mod tsc ci h1 h2 h3 h4 h5 h6 h7
+    have := accepted_of pduV1Rx _ _ _ pdu_wf.2.2.1
+      (inrange_rx_v1_nope tn fn rssi toa256 mod tsc ci h1 h2 h3 h4 h5 h6 h7) hlay
+    rwa [hlen] at this
+
+/-- every (coding, TSC set) the message codec accepts — except GMSK_AB with TSC set 1 — gives a documented
+modulation nibble with the message codec's own burst length -/
+theorem msgcodec_mod_codes : ∀ coding ∈ List.range 16, ∀ set ∈ List.range 4,
+    msgModValid coding set = true → ¬ (coding = 6 ∧ set = 1) →
+    msgModCode coding set < 16 ∧ burstLen (msgModCode coding set) = msgBurstLen coding := by
+  decide
+
+/-- FULL statement of "every v1 Rx datagram of the message codec is accepted" (kept visible). -/
+def msgcodec_accepted_rx_v1_full : Prop :=
+  ∀ (tn fn : Nat) (rssi toa256 : Int) (coding set tsc : Nat) (ci : Int) (bits : List Nat),
+    tn < 8 → fn < 4294967296 → (-255 ≤ rssi ∧ rssi ≤ 0) → (-32768 ≤ toa256 ∧ toa256 ≤ 32767) →
+    msgModValid coding set = true → tsc < 8 → (-32768 ≤ ci ∧ ci ≤ 32767) → isBytes bits = true →
+    msgBurstLen coding = some bits.length →
+    fromBytes pduV1Rx (layoutRxV1 tn fn rssi toa256 0 (msgModCode coding set) tsc ci bits)
+      = .ok (valsRxV1 tn fn rssi toa256 0 (msgModCode coding set) tsc ci [("soft-bits", .bytes bits)], 11 + bits.length)
+
+/-- proved part: everything but GMSK_AB with TSC set 1 (known finding F11a) -/
+theorem msgcodec_accepted_rx_v1_partial (tn fn : Nat) (rssi toa256 : Int) (coding set tsc : Nat) (ci : Int)
+    (bits : List Nat) (h1 : tn < 8) (h2 : fn < 4294967296) (h3 : -255 ≤ rssi ∧ rssi ≤ 0)
+    (h4 : -32768 ≤ toa256 ∧ toa256 ≤ 32767) (hm : msgModValid coding set = true) (h6 : tsc < 8)
+    (h7 : -32768 ≤ ci ∧ ci ≤ 32767) (hb : isBytes bits = true) (hl : msgBurstLen coding = some bits.length)
+    (hx : ¬ (coding = 6 ∧ set = 1)) :
+    fromBytes pduV1Rx (layoutRxV1 tn fn rssi toa256 0 (msgModCode coding set) tsc ci bits)
+      = .ok (valsRxV1 tn fn rssi toa256 0 (msgModCode coding set) tsc ci [("soft-bits", .bytes bits)], 11 + bits.length) := by
+  have hc : coding < 16 ∧ set < 4 := by
+    simp only [msgModValid, msgModulations, List.map_cons, List.map_nil, Bool.and_eq_true] at hm
+    obtain ⟨hm1, hm2⟩ := hm
+    have : coding = 0 ∨ coding = 4 ∨ coding = 6 ∨ coding = 8 ∨ coding = 10 ∨ coding = 12 := by
+      simpa [List.contains_cons] using hm1
+    refine ⟨by omega, ?_⟩
+    split at hm2 <;> simp at hm2 <;> omega
+  obtain ⟨k1, k2⟩ := msgcodec_mod_codes coding (List.mem_range.2 hc.1) set (List.mem_range.2 hc.2) hm hx
+  exact (msgcodec_accepted_rx_v1 tn fn rssi toa256 _ tsc ci bits h1 h2 h3 h4 k1 h6 h7 hb).1 (by rw [k2, hl])
+
+set_option maxRecDepth 100000 in
+/-- F11a: a valid `RxMsg` v1 with ModGMSK_AB and TSC set 1 puts the RFU code `0111` on the wire, which
+`PDUv1Rx` rejects — the full statement is false. -/
+theorem msgcodec_accepted_rx_v1_full_fails : ¬ msgcodec_accepted_rx_v1_full := by
+  intro h
+  have := h 0 0 0 0 6 1 0 0 (List.replicate 148 0) (by decide) (by decide) (by decide) (by decide) (by decide)
+    (by decide) (by decide) (by decide) (by decide)
+  revert this
+  decide +kernel
+
+/-- F11b: `TxMsg.gen_msg(legacy=True)` appends two octets; `PDUv0Tx` has no `pad` field, so the datagram is
+accepted but the two octets end up in `hard-bits` (150 octets): the field values are not identical. -/
+theorem msgcodec_tx_legacy_not_identical (tn fn pwr : Nat) (bits : List Nat) (h1 : tn < 8) (h2 : fn < 4294967296)
+    (h3 : pwr < 256) (hb : isBytes bits = true) :
+    fromBytes pduV0Tx (layoutTx 0 tn fn pwr bits ++ [0, 0]) = .ok (valsTx 0 tn fn pwr (bits ++ [0, 0]), 6 + bits.length + 2)
+    ∧ valsTx 0 tn fn pwr (bits ++ [0, 0]) ≠ valsTx 0 tn fn pwr bits := by
+  have hb2 : isBytes (bits ++ [0, 0]) = true := by rw [isBytes_append, hb]; decide
+  have := (msgcodec_accepted_tx 0 tn fn pwr (bits ++ [0, 0]) h1 h2 h3 hb2).1 rfl
+  have e : layoutTx 0 tn fn pwr (bits ++ [0, 0]) = layoutTx 0 tn fn pwr bits ++ [0, 0] := by simp [layoutTx]
+  rw [e] at this
+  refine ⟨by simpa [Nat.add_assoc] using this, ?_⟩
+  intro hc
+  simp only [valsTx, List.cons.injEq, Prod.mk.injEq, Val.bytes.injEq, and_true, true_and] at hc
+  have := congrArg List.length hc
+  simp at this
 
 end OsmoVerif.Props.C17
